@@ -38,9 +38,17 @@ def call(P, spec, budget=None, wall=20):
         kw = {}
     else:
         raise ValueError(f)
+    mult = len(spec["ts"]) + 1 if f == "min_point_rdp" else 1
+    per = None
     if budget is None:
-        budget = 400 * n + 4000      # hard stop, far above any linear bound (grdp recomputes costs per step)
-    out, val, counts = monitor.call(getattr(rdp, f), args, kw, budget=budget, wall=wall)
+        # total hard stop: at most ~2n refinement steps per pass, each doing at most one pass over the retained
+        # segments / the points (grdp recomputes the global cost per step) -> quadratic, with a wide margin.
+        # (an earlier linear total, 400n+4000, cut returning calls on 3000-point curves: DESIGN 11.3)
+        budget = mult * monitor.quad(n, 16)
+        # the refinement loops themselves are what C01 bounds linearly: cut a spinning one early
+        per = {k: mult * (8 * n + 64) for k in STEP_LOOPS[f]}
+        wall = max(wall, int(wall * n * n / 250000.0))
+    out, val, counts = monitor.call(getattr(rdp, f), args, kw, budget=budget, wall=wall, per=per)
     ev = {"f": f, "n": n, "outcome": out, "counts": counts}
     if out == "returned":
         red, rem = val
